@@ -459,6 +459,12 @@ class HostConnection(object):
             with self._stream_available_condition:
                 self._stream_available_condition.notify()
 
+        if connection.is_closed and not connection.is_defunct and \
+                connection.orphaned_threshold_reached and connection is not self._connection:
+            # a replaced connection that _replace() (or the trash) closed once only orphaned
+            # streams were left on it: that is not a connection failure
+            return
+
         if connection.is_defunct or connection.is_closed:
             if connection.signaled_error and not self.shutdown_on_error:
                 return
